@@ -77,6 +77,12 @@ type serverConn struct {
 	// channel.
 	writeStop chan struct{}
 
+	// writerGone is closed when the write loop returns, which it also does on
+	// its own when a write fails. From then on nothing takes frames off writer:
+	// once it is full a bare send parks the stream loop for good, and it is the
+	// stream loop ending that closes writeStop.
+	writerGone chan struct{}
+
 	// handlerDone carries a stream back to the stream loop once its handler has
 	// returned. Handlers run on their own goroutines so that a slow request
 	// does not hold up the other streams on the connection, but everything the
@@ -165,6 +171,7 @@ func (sc *serverConn) Serve() error {
 	defer sc.vs.ev(verifEvServeReturn)
 	sc.closer = make(chan struct{}, 1)
 	sc.writeStop = make(chan struct{})
+	sc.writerGone = make(chan struct{})
 	sc.handlerDone = make(chan *Stream, 128)
 	sc.handlerStop = make(chan struct{})
 	// Created disarmed. time.NewTimer(0) fires at once, and with no read
@@ -203,6 +210,7 @@ func (sc *serverConn) Serve() error {
 
 	go func() {
 		defer close(writeDone)
+		defer close(sc.writerGone)
 
 		// defer closing the connection in the writeLoop in case the writeLoop panics
 		defer func() {
@@ -1883,6 +1891,9 @@ func (sc *serverConn) write(fr *FrameHeader) {
 	select {
 	case sc.writer <- fr:
 	case <-sc.writeStop:
+		sc.vs.ev(verifEvDropped)
+		ReleaseFrameHeader(fr)
+	case <-sc.writerGone:
 		sc.vs.ev(verifEvDropped)
 		ReleaseFrameHeader(fr)
 	}
